@@ -279,3 +279,18 @@ PROPS["C09"] = dict(
         dict(test="TestC09Linearizable", quick=dict(checks=1600, shards=16, timeout=600), thorough=dict(checks=160000, shards=16, timeout=3300)),
     ],
 )
+
+PROPS["C14"] = dict(
+    pkg="c14", level="fault_enumeration",
+    technique="property-based testing (rapid) over generated schedules, choices and crash points: real generated pbkvs archetypes under the deterministic scheduler on a spec-faithful environment; ConsistencyOK after every commit and porcupine on the client history",
+    level_text="1-4 real AReplica and 1-3 real AClient archetypes run on the real Run loop one attempt at a time over harness implementations of the spec's mapping "
+               "macros (FIFO link records, NetworkToggle, PerfectFD, LeaderElection, NetworkBufferLength, Channel, two-level fs). Who steps, every either branch and "
+               "every crash (the mayFail choice, at every label boundary that has one, while another replica is alive) are rapid draws. After every commit the spec's "
+               "ConsistencyOK is evaluated over fs and the program counters; no assertion may fail; the acknowledged client history must be linearizable.",
+    level_note="Perfect failure detector as in the spec; crashes happen where the spec allows them (mayFail). Schedules are sampled (<=1200 attempts).",
+    rule="drawn configuration, request stream, crash rate and schedule; non-trivial = the primary crashed between sending replication requests and answering "
+         "(sndReplicaReqLoop / rcvReplicaRespLoop) and a backup later took over with shouldSync; distinct by rendered schedule.",
+    runs=[
+        dict(test="TestC14PrimaryBackup", quick=dict(checks=8000, shards=16, timeout=600), thorough=dict(checks=800000, shards=16, timeout=3300)),
+    ],
+)
